@@ -1,6 +1,7 @@
 #!/bin/bash
 # tools/confirm_seeded_append.sh <seed-id> <out-dir> <source-file-relative-to-repo> <package> <test-filter>
-# Like confirm_seeded.sh, for demonstrations that are unit tests to be APPENDED to a source file.
+# Like confirm_seeded.sh, for demonstrations that are unit tests to be APPENDED to a source file
+# (INSIDE_TESTS=1: inserted before the last closing brace, i.e. inside the trailing `mod tests`).
 set -u
 ID="$1"; OUT="$2"; SRC="$3"; PKG="$4"; FILTER="$5"
 WT=/tmp/confirm-wt
@@ -10,12 +11,12 @@ git -C $WT checkout -q -- . ; git -C $WT clean -fdq -e target
 DEST=/verif/seeded/$ID; mkdir -p $DEST
 cp $OUT/patch.diff $OUT/demo.rs $DEST/; cp $OUT/notes.md $DEST/ 2>/dev/null
 LOG=$DEST/confirm.log; : > $LOG
-cat $OUT/demo.rs >> $WT/$SRC
+if [ -n "${INSIDE_TESTS:-}" ]; then python3 /verif/tools/apply_demo.py $WT/$SRC $OUT/demo.rs; else cat $OUT/demo.rs >> $WT/$SRC; fi
 echo "## demo on pristine tree (expect PASS)" >> $LOG
 ( cd $WT && timeout 3600 cargo test --offline -p $PKG ${FEAT:-} --lib $FILTER 2>&1 | grep -E "^test |test result|error(\[|:)|panicked" | head -20 ) >> $LOG
 PRISTINE=$(grep -c "test result: ok" $LOG)
 git -C $WT checkout -q -- . ; git -C $WT apply $OUT/patch.diff || { echo "PATCH DOES NOT APPLY" >> $LOG; exit 2; }
-cat $OUT/demo.rs >> $WT/$SRC
+if [ -n "${INSIDE_TESTS:-}" ]; then python3 /verif/tools/apply_demo.py $WT/$SRC $OUT/demo.rs; else cat $OUT/demo.rs >> $WT/$SRC; fi
 echo "## demo with patch (expect FAIL)" >> $LOG
 ( cd $WT && timeout 3600 cargo test --offline -p $PKG ${FEAT:-} --lib $FILTER 2>&1 | grep -E "^test |test result|error(\[|:)|panicked" | head -20 ) >> $LOG
 PATCHED_FAIL=$(sed -n '/## demo with patch/,$p' $LOG | grep -c "test result: FAILED")
